@@ -2,3 +2,5 @@ import CapyV.Props.C25
 import CapyV.Props.C27
 import CapyV.Props.C03
 import CapyV.Props.C22
+import CapyV.Props.C23
+import CapyV.Props.C23Loops
